@@ -376,8 +376,12 @@ fn run_scenario<S: Service>(plan: &Plan, errs: &Arc<Mutex<Errs>>, tag: &str) {
                 if subs[i].is_some() {
                     continue;
                 }
-                let (buffer, hist_req) = (o.arg(1) as usize, o.arg(2) as usize);
-                let r = service.subscriber_builder().buffer_size(buffer).history_request(hist_req).create();
+                // a negative history request = none given: the subscriber then asks for the service's whole
+                // history, clamped to its own buffer
+                let default_request = o.arg(2) < 0;
+                let buffer = o.arg(1) as usize;
+                let hist_req = if default_request { m.history_size.min(buffer) } else { o.arg(2) as usize };
+                let r = if default_request { service.subscriber_builder().buffer_size(buffer).create() } else { service.subscriber_builder().buffer_size(buffer).history_request(hist_req).create() };
                 let expect_err = if buffer > m.max_buffer {
                     Some("BufferSizeExceedsMaxSupportedBufferSizeOfService")
                 } else if hist_req > m.history_size {
@@ -680,7 +684,7 @@ impl Harness for PubSubHarness {
                     Op::new("dp", &[i])
                 } else if k < 8 {
                     let buffer = if r.chance(0.1) { max_buffer + 1 } else { r.range(1, max_buffer) };
-                    let hr = if r.chance(0.1) { history + 1 } else { r.range(0, history.min(buffer)) };
+                    let hr = if r.chance(0.1) { history + 1 } else if r.chance(0.25) { -1 } else { r.range(0, history.min(buffer)) };
                     Op::new("cs", &[i, buffer, hr])
                 } else if k < 9 {
                     Op::new("ds", &[i])
@@ -707,7 +711,7 @@ impl Harness for PubSubHarness {
                 Op::new("dp", &[i])
             } else if k < 15 {
                 let buffer = if r.chance(0.1) { max_buffer + 1 } else { r.range(1, max_buffer) };
-                let hr = if r.chance(0.1) { history + 1 } else { r.range(0, history.min(buffer)) };
+                let hr = if r.chance(0.1) { history + 1 } else if r.chance(0.25) { -1 } else { r.range(0, history.min(buffer)) };
                 Op::new("cs", &[i, buffer, hr])
             } else if k < 18 {
                 Op::new("ds", &[i])
